@@ -292,8 +292,8 @@ func (s *r2State) waiterPath(e core.Entry, p *core.Path) {
 				}
 			}
 		case core.KAccess:
-			if !ev.Write && !ev.Var.IsField() {
-				reads[ev.Var] = append(reads[ev.Var], i)
+			if av := accessVar(ev); !ev.Write && !av.IsField() {
+				reads[av] = append(reads[av], i)
 			}
 		case core.KSelect:
 			sel, ok := ev.Node.(*ast.SelectStmt)
